@@ -111,6 +111,8 @@ func vf44SendEpoch(sh *Shard, e uint64) bool {
 	return false
 }
 
+const vf44Shapes = true
+
 const (
 	vf44Reg = iota
 	vf44Child
@@ -148,6 +150,7 @@ type vf44Case struct {
 	r     *verifkit.Run
 	idx   int
 	rng   *rand.Rand
+	shape *rand.Rand // separate stream: decisions about unrelatable-piece shapes
 	sh    *Shard
 	ep    *vf44Epoch
 	cb    *vf44CB
@@ -259,11 +262,69 @@ func (c *vf44Case) put(i int) bool {
 	return true
 }
 
-// markTree applies f to slot i and, for a split parent, to its acknowledged pieces.
+// namesParent: the piece carries the parent's ID in its header (last child, link object).
+// The first child carries the parent header without an ID and middle children carry
+// nothing of the parent, so only through a stored naming piece can a shard relate the
+// pieces it holds (by their common first-child ID) to the parent's ID.
+func (s *vf44Slot) namesParent() bool {
+	p := s.obj.Parent()
+	return p != nil && !p.GetID().IsZero()
+}
+
+// stored: the piece was acknowledged and has not been collected yet (storage interface view).
+func (c *vf44Case) stored(s *vf44Slot) bool {
+	if !s.acked {
+		return false
+	}
+	ok, err := c.sh.blobStor.Exists(s.addr)
+	return err == nil && ok
+}
+
+// relatable: the shard holds right now a piece that names split parent i.  Without one
+// the parent's ID means nothing to the shard: a tombstone or mark addressed to it is the
+// removal of an object the shard never saw, and the pieces it may hold are - as far as any
+// information available to the shard goes - neither tombstoned nor marked.
+func (c *vf44Case) relatable(i int) bool {
+	for _, p := range c.slots[i].pieces {
+		if x := c.slots[p]; x.namesParent() && c.stored(x) {
+			return true
+		}
+	}
+	return false
+}
+
+// markTree applies f to slot i and, for a split parent, to those acknowledged pieces the
+// removal of the parent extends to: all of them when the shard holds a piece naming the
+// parent at this moment, none otherwise (see relatable).
 func (c *vf44Case) markTree(i int, f func(*vf44Slot)) {
 	s := c.slots[i]
 	if s.acked {
 		f(s)
+	}
+	if s.kind != vf44Parent {
+		return
+	}
+	c.r.Count("parent_removals", 1)
+	if !c.relatable(i) {
+		orphans := 0
+		for _, p := range s.pieces {
+			if c.stored(c.slots[p]) {
+				orphans++
+			}
+		}
+		if orphans > 0 {
+			c.r.Count("parent_removals_with_only_unrelatable_pieces_stored", 1)
+			if s.acked {
+				c.r.Count("parent_removals_after_naming_pieces_were_collected", 1)
+			} else {
+				c.r.Count("parent_removals_naming_pieces_never_stored", 1)
+			}
+			c.r.Count("unrelatable_pieces_not_bound_by_parent_removal", orphans)
+			c.log = append(c.log, fmt.Sprintf("  (shard holds %d piece(s) of %s but none naming it: not bound)", orphans, s.name))
+		} else {
+			c.r.Count("parent_removals_with_no_piece_stored", 1)
+		}
+		return
 	}
 	for _, p := range s.pieces {
 		if c.slots[p].acked {
@@ -313,8 +374,38 @@ func (c *vf44Case) newBig(cnr int) {
 	if c.rng.IntN(2) == 0 {
 		sort.Ints(order)
 	}
+	// every fifth split object reaches this shard without the pieces naming its parent
+	// (placement spreads the pieces of a big object over nodes and shards)
+	partial := vf44Shapes && c.shape.IntN(5) == 0
+	if partial {
+		c.r.Count("split_objects_put_without_naming_pieces", 1)
+	}
 	for _, k := range order {
+		if partial && chain[k].namesParent() {
+			continue
+		}
 		c.put(c.idx4(chain[k]))
+	}
+}
+
+// markNaming: the pieces naming split parent i are marked one by one (what a policer does
+// with replicas it finds redundant); once GC collected them the remaining pieces are held
+// without anything relating them to the parent.
+func (c *vf44Case) markNaming(i int) {
+	for _, p := range c.slots[i].pieces {
+		x := c.slots[p]
+		if !x.namesParent() || !x.acked {
+			continue
+		}
+		var err error
+		c.r.Guard(c.replay(), func() {
+			err = c.sh.MarkGarbage(c.cnrs[x.cnr].id, []oid.ID{x.addr.Object()}, meta.GarbageMarkRedundant)
+		})
+		c.log = append(c.log, fmt.Sprintf("mark %s kind=%d (naming piece of %s) -> %v", x.name, meta.GarbageMarkRedundant, c.slots[i].name, err))
+		c.r.Count("marks_of_naming_pieces", 1)
+		if err == nil && !c.cnrs[x.cnr].removed {
+			c.markTree(p, func(y *vf44Slot) { y.marked = true })
+		}
 	}
 }
 
@@ -362,6 +453,16 @@ func (c *vf44Case) step() {
 			cn, tid = c.slots[t].cnr, c.slots[t].addr.Object()
 		}
 		exp := c.randExp(1)
+		if vf44Shapes && t >= 0 && c.slots[t].kind == vf44Parent && c.shape.IntN(3) == 0 {
+			// the pieces naming the parent were found redundant and collected before the
+			// parent's tombstone arrives (collected only if the remover batch got to them)
+			c.markNaming(t)
+			for k := 0; k < 2; k++ {
+				c.r.Guard(c.replay(), func() { c.sh.removeGarbage() })
+				c.log = append(c.log, "gc")
+				c.r.Count("gc_passes_inside_history", 1)
+			}
+		}
 		s := c.mk(vf44Tomb, cn, exp, t, 0)
 		s.obj.AssociateDeleted(tid)
 		s.addr = verifkit.Addr(s.obj)
@@ -375,6 +476,10 @@ func (c *vf44Case) step() {
 		mark := meta.GarbageMarkDefault
 		if rng.IntN(2) == 0 {
 			mark = meta.GarbageMarkRedundant
+		}
+		if vf44Shapes && s.kind == vf44Parent && c.shape.IntN(2) == 0 {
+			c.markNaming(i)
+			return
 		}
 		var err error
 		c.r.Guard(c.replay(), func() { err = c.sh.MarkGarbage(c.cnrs[s.cnr].id, []oid.ID{s.addr.Object()}, mark) })
@@ -489,7 +594,7 @@ func TestVerif_C44(t *testing.T) {
 		if err != nil {
 			t.Fatalf("shard: %v", err)
 		}
-		c := &vf44Case{r: r, idx: ci, rng: rng, sh: sh, ep: ep, cb: cb, owner: verifkit.RandUser(rng), rmB: rmB, noBig: rng.IntN(2) == 0}
+		c := &vf44Case{r: r, idx: ci, rng: rng, shape: r.Rand("shape", ci), sh: sh, ep: ep, cb: cb, owner: verifkit.RandUser(rng), rmB: rmB, noBig: rng.IntN(2) == 0}
 		for k := 0; k < 2+rng.IntN(2); k++ {
 			c.cnrs = append(c.cnrs, &vf44Cnr{id: verifkit.RandCID(rng)})
 		}
